@@ -147,7 +147,13 @@ def snep_case(draw, kind):
     case = dict(lk, kind=kind, srv_miu=smiu, srv_rw=srw, size=size,
                 seed=draw(st.integers(0, 255)), fill=draw(FILL),
                 explicit=draw(st.booleans()),
-                limit=draw(st.sampled_from([None, None, None, -1, 0, 1])))
+                # the server's acceptable length: not set, the message size
+                # -1 / +0 / +1, or an absolute number of octets (0: a server
+                # that takes nothing but the empty message)
+                limit=draw(st.sampled_from([None, None, None, -1, 0, 1, -1,
+                                            0, 1, ["abs", 0], ["abs", 0],
+                                            ["abs", 1], ["abs", 7],
+                                            ["abs", 200]])))
     if kind == "get":
         case["rsize"] = draw(st.one_of(around(128), st.integers(0, 5000),
                                        st.sampled_from([0, 3, 6])))
@@ -240,8 +246,9 @@ def run(case, ctx):
         if kind in ("put", "get"):
             size = norm_size(case["size"])
             msg = message(size, case["seed"], period_of(case))
-            limit = None if case["limit"] is None else max(
-                0, size + case["limit"])
+            limit = None if case["limit"] is None else (
+                case["limit"][1] if isinstance(case["limit"], list)
+                else max(0, size + case["limit"]))
             rsize = norm_size(case.get("rsize", 0))
             answer = message(rsize, case["seed"] ^ 0x55, period_of(case))
             climit = None
@@ -408,7 +415,9 @@ def run(case, ctx):
                                     "want %d octets, got %r" % (
                                         len(answer), None if got is None
                                         else len(got)))
-        if limit is not None and abs(len(msg) - limit) <= 1:
+        if limit is not None and (abs(len(msg) - limit) <= 1 or
+                                  (len(msg) > limit and
+                                   isinstance(case["limit"], list))):
             ctx.nontrivial()
     else:
         if out.get("sent") is not True:
